@@ -18,6 +18,7 @@ Judge(ok, tag, exp) == IF ok THEN TRUE ELSE PrintT(<<"MISMATCH", l, tag, ToJson(
 Guard(ok, tag, exp) == IF ok THEN TRUE ELSE PrintT(<<"STDMODEL", l, tag, ToJson(exp)>>)
 
 Cls(kind) == CASE kind \in {"slice_src", "unix_src"} -> "src"
+               [] kind = "unix_chunks" -> "chunked"
                [] kind = "slice_sink" -> "sink"
                [] kind \in {"vec", "unix_sink"} -> "grow"
                [] kind \in {"cursor_vec", "cursor_slice"} -> "cur_src"
